@@ -31,6 +31,7 @@ type c18Mix struct {
 	Ops     int   `json:"ops_per_client"`
 	Chaos   []int `json:"chaos"` // backend actions fired concurrently with the traffic
 	Comp    bool  `json:"compression"`
+	Churn   int   `json:"churn,omitempty"` // > 0: the chaos goroutine first removes and re-adds nodes that many times under full traffic
 }
 
 func c18MixRun(c c18Mix) *evid.Fail {
@@ -44,6 +45,7 @@ func c18MixRun(c c18Mix) *evid.Fail {
 	e.Cluster.UnpreparedAuto = true
 	var wg sync.WaitGroup
 	stop := make(chan struct{})
+	chaosDone := make(chan struct{})
 	for ci := 0; ci < c.Clients; ci++ {
 		wg.Add(1)
 		go func(ci int) {
@@ -77,11 +79,20 @@ func c18MixRun(c c18Mix) *evid.Fail {
 				return
 			}
 			wait := func(s int16, from int) { r.c.WaitStream(s, from, 1, 2*time.Second) }
-			for k := 0; k < c.Ops; k++ {
+			// at least Ops requests, and keep going while the chaos goroutine is still active (bounded)
+			for k := 0; k < c.Ops*40; k++ {
 				select {
 				case <-stop:
 					return
 				default:
+				}
+				if k >= c.Ops {
+					select {
+					case <-chaosDone:
+						k = c.Ops * 40
+						continue
+					default:
+					}
 				}
 				tok := fakecass.Token(900000000 + ci*100000 + k)
 				s := r.nextStream()
@@ -129,7 +140,18 @@ func c18MixRun(c c18Mix) *evid.Fail {
 	wg.Add(1)
 	go func() {
 		defer wg.Done()
+		defer close(chaosDone)
 		added := 0
+		for k := 0; k < c.Churn && e.Cluster.NumHosts() > 1; k++ {
+			h := 1 + k%(e.Cluster.NumHosts()-1)
+			ip := net.ParseIP(e.Cluster.HostIP(h))
+			e.Cluster.SetMember(h, false)
+			e.Cluster.Emit(&message.TopologyChangeEvent{ChangeType: primitive.TopologyChangeTypeRemovedNode, Address: &primitive.Inet{Addr: ip, Port: int32(e.Cluster.Port)}}, primitive.EventTypeTopologyChange)
+			time.Sleep(14 * time.Millisecond)
+			e.Cluster.SetMember(h, true)
+			e.Cluster.Emit(&message.TopologyChangeEvent{ChangeType: primitive.TopologyChangeTypeNewNode, Address: &primitive.Inet{Addr: ip, Port: int32(e.Cluster.Port)}}, primitive.EventTypeTopologyChange)
+			time.Sleep(14 * time.Millisecond)
+		}
 		for i, a := range c.Chaos {
 			select {
 			case <-stop:
@@ -140,17 +162,17 @@ func c18MixRun(c c18Mix) *evid.Fail {
 			nh := e.Cluster.NumHosts()
 			h := (a / 16) % nh
 			switch a % 12 {
-			case 0, 1:
+			case 0:
 				if cs := e.Cluster.Host(h).Conns(); len(cs) > 0 {
 					cs[(a/7)%len(cs)].Close()
 				}
-			case 2:
+			case 1:
 				for _, cn := range e.Cluster.RegisteredConns() {
 					cn.Close()
 				}
-			case 3, 4:
+			case 2, 3:
 				e.Cluster.Emit(c14SchemaEvent("UPDATED", "TABLE", i), primitive.EventTypeSchemaChange)
-			case 5:
+			case 4:
 				if added < 2 {
 					added++
 					if nhost, err := e.Cluster.AddHost(true); err == nil {
@@ -158,16 +180,22 @@ func c18MixRun(c c18Mix) *evid.Fail {
 						e.Cluster.Emit(&message.TopologyChangeEvent{ChangeType: primitive.TopologyChangeTypeNewNode, Address: &primitive.Inet{Addr: ip, Port: int32(e.Cluster.Port)}}, primitive.EventTypeTopologyChange)
 					}
 				}
-			case 6:
+			case 5, 6:
+				// a node leaves the ring while requests are being planned and sent; give the refresh window time to
+				// pass so that the removal is applied while the traffic continues
 				if len(e.Cluster.Members()) > 1 && h != 0 {
 					e.Cluster.SetMember(h, false)
 					ip := net.ParseIP(e.Cluster.HostIP(h))
 					e.Cluster.Emit(&message.TopologyChangeEvent{ChangeType: primitive.TopologyChangeTypeRemovedNode, Address: &primitive.Inet{Addr: ip, Port: int32(e.Cluster.Port)}}, primitive.EventTypeTopologyChange)
+					time.Sleep(15 * time.Millisecond)
 				}
-			case 7:
-				e.Cluster.Host(h).DropConns(nil)
-			case 8:
-				e.Cluster.Host(h).Forget()
+			case 7, 8:
+				// ... and comes back
+				e.Cluster.SetMember(h, true)
+				ip := net.ParseIP(e.Cluster.HostIP(h))
+				e.Cluster.Emit(&message.TopologyChangeEvent{ChangeType: primitive.TopologyChangeTypeNewNode, Address: &primitive.Inet{Addr: ip, Port: int32(e.Cluster.Port)}}, primitive.EventTypeTopologyChange)
+				e.Cluster.Emit(&message.StatusChangeEvent{ChangeType: primitive.StatusChangeTypeUp, Address: &primitive.Inet{Addr: ip, Port: int32(e.Cluster.Port)}}, primitive.EventTypeStatusChange)
+				time.Sleep(15 * time.Millisecond)
 			case 9:
 				host := e.Cluster.Host(h)
 				host.Stop()
@@ -178,9 +206,11 @@ func c18MixRun(c c18Mix) *evid.Fail {
 					go e.Cluster.Host(hh).DropConns(nil)
 				}
 			case 11:
-				e.Cluster.SetMember(h, true)
-				ip := net.ParseIP(e.Cluster.HostIP(h))
-				e.Cluster.Emit(&message.StatusChangeEvent{ChangeType: primitive.StatusChangeTypeUp, Address: &primitive.Inet{Addr: ip, Port: int32(e.Cluster.Port)}}, primitive.EventTypeStatusChange)
+				if a%24 == 11 {
+					e.Cluster.Host(h).Forget()
+				} else {
+					e.Cluster.Host(h).DropConns(nil)
+				}
 			}
 		}
 	}()
@@ -212,10 +242,13 @@ func TestC18(t *testing.T) {
 	rec.Assume("only races on executions that occurred are reported: the detector has no false positives but misses races on paths the scenarios never run concurrently",
 		"functional oracles of the re-used families are ignored here")
 
-	runProp(t, rec, "mix", perShard(evid.Pick(60, 1200)), func(rt *rapid.T) c18Mix {
-		c := c18Mix{Hosts: rapid.IntRange(1, 4).Draw(rt, "hosts"), Conns: rapid.IntRange(1, 2).Draw(rt, "conns"), Clients: rapid.IntRange(4, 12).Draw(rt, "clients"),
+	runProp(t, rec, "mix", perShard(evid.Pick(100, 2000)), func(rt *rapid.T) c18Mix {
+		c := c18Mix{Hosts: rapid.SampledFrom([]int{1, 2, 2, 3, 3, 4}).Draw(rt, "hosts"), Conns: rapid.IntRange(1, 2).Draw(rt, "conns"), Clients: rapid.IntRange(4, 12).Draw(rt, "clients"),
 			Ops: rapid.IntRange(5, 30).Draw(rt, "ops"), Chaos: rapid.SliceOfN(rapid.IntRange(0, 1000), 0, 40).Draw(rt, "chaos"), Comp: rapid.Bool().Draw(rt, "comp")}
-		rec.Case("mix:"+js(c), "family:mix", fmt.Sprintf("mix-conns:%d", c.Conns))
+		if c.Hosts > 1 && rapid.Bool().Draw(rt, "churns") {
+			c.Churn = rapid.IntRange(2, 12).Draw(rt, "churn")
+		}
+		rec.Case("mix:"+js(c), "family:mix", fmt.Sprintf("mix-conns:%d", c.Conns), map[bool]string{true: "mix-membership-churn", false: ""}[c.Churn > 0])
 		rec.Sample(c)
 		return c
 	}, c18MixRun)
